@@ -170,12 +170,73 @@ def check(run):
                 run.count('sysexit_cases')
             core.rm_rf(scratch)
             os.makedirs(scratch, exist_ok=True)
+        phased_failure_family(run)
         if drv is not None and run.corr_disagreements == 0:
             run.obligation('trace validation: %d real histories with failing tasks (%d events) accepted by the Lean model' % (run.counts.get('traces_validated', 0), run.counts.get('trace_events_validated', 0)), True)
     finally:
         core.rm_rf(scratch)
         if drv is not None:
             drv.close()
+
+
+PHASED = '''from jug import TaskGenerator, barrier, bvalue
+import os
+HERE = os.path.dirname(os.path.abspath(__file__))
+def _log(s):
+    with open(os.path.join(HERE, 'calls.log'), 'a') as f:
+        f.write(s + chr(10))
+@TaskGenerator
+def ok(k, x):
+    _log('ok %%d' %% k)
+    return x + 1
+@TaskGenerator
+def boom(k, x):
+    _log('boom %%d' %% k)
+    raise ValueError('planned failure of task %%d' %% k)
+a = ok(1, 1)            # value 2
+f = boom(2, a)          # fails in the first pass
+g = ok(3, f)            # depends on the failed task: never started
+%(phase)s
+later = [ok(10 + j, j) for j in range(n)]      # defined in a later pass, independent of the failed task
+'''
+
+
+def phased_failure_family(run):
+    """the real `jug execute` command (its reload loop over barrier phases) with a task that fails in an early phase"""
+    from jugverif.loadercheck import jug_cli
+    for phase, label in (('n = bvalue(a)', 'bvalue'), ('barrier()\nn = 2', 'barrier')):
+        for kf in (False, True):
+            d = core.scratch_dir()
+            try:
+                open(os.path.join(d, 'jugfile.py'), 'w').write(PHASED % {'phase': phase})
+                args = ['execute', '--will-cite', '--keep-going', '--nr-wait-cycles', '2', '--wait-cycle-time', '0'] + (['--keep-failed'] if kf else []) + ['jugfile.py']
+                r = jug_cli(args, d)
+                calls = [l.split() for l in open(os.path.join(d, 'calls.log')).read().split('\n') if l.strip()] if os.path.exists(os.path.join(d, 'calls.log')) else []
+                ran = sorted(int(c[1]) for c in calls if c[0] == 'ok')
+                booms = len([c for c in calls if c[0] == 'boom'])
+                lockdir = os.path.join(d, 'jugfile.jugdata', 'locks')
+                locks = os.listdir(lockdir) if os.path.isdir(lockdir) else []
+                rp = {'kind': 'phased-failure', 'phase': label, 'keep_failed': kf}
+                desc = '`jug execute --keep-going%s` on a jugfile whose task f fails before a %s' % (' --keep-failed' if kf else '', label)
+                run.case(('phased-failure', label, kf), nontrivial=True)
+                run.count('phased_failure_runs')
+                if r.returncode == 0:
+                    run.fail('exit-zero-after-failure', '%s: exit status 0 although a task raised (output: %s)' % (desc, r.stdout.strip()[-200:]), rp)
+                if 3 in ran:
+                    run.fail('dependent-of-failed-started', '%s: the dependent of the failed task was started' % desc, rp)
+                if label == 'bvalue' and ran != [1, 10, 11]:
+                    # bvalue(a) only needs a: the tasks of the later phase do not depend on the failed one and must complete
+                    run.fail('independent-not-completed', '%s: the tasks defined after bvalue(a) do not depend on the failed task, but the tasks that ran are %s (expected ok(1), ok(10), ok(11))' % (desc, ran), rp)
+                if label == 'barrier' and ran != [1]:
+                    run.fail('barrier-crossed-with-failure', '%s: barrier() must stay closed while an earlier task has no result; tasks that ran: %s' % (desc, ran), rp)
+                if kf and len(locks) != 1:
+                    run.fail('failed-lock-not-kept', '%s: lock files %s (expected the lock of the failed task only)' % (desc, locks), rp)
+                if not kf and locks:
+                    run.fail('lock-left-after-failure', '%s: lock files left: %s' % (desc, locks), rp)
+                if not kf and booms < 1:
+                    run.fail('failing-task-not-run', '%s: the failing task never ran' % desc, rp)
+            finally:
+                core.rm_rf(d)
 
 
 def replay(path):
